@@ -385,6 +385,13 @@ func traps(tier string, seed int64) []*Scenario {
 	out = append(out, &Scenario{N: 3, Kind: "balance", Mode: "shell", Src: "trap:pending", Store: []Item{{"acc", "u1", "", "5"}, {"acc", "l1", "", "3"},
 		{"supply", "", "", "8"}, {"notary", "", "", "true"}, {"ballots", "", "", "mixed"}, {"nmhash", "", "", "h"}, {"cnhash", "", "", "h"}, {"junk20", "", "", "x"}},
 		Steps: []Step{up(cfgPrev - 1), up(cfgPrev), wait, up(16999), up(cfgNew - 1)}})
+	// old-layout accounts WITHOUT any notary flag, from below and above 0.17 (C16h: the re-prefixing of accounts must not hang
+	// on the branch that handles the flag)
+	for _, v := range []int64{cfgPrev, 16000, 16999, 17000, 19000} {
+		out = append(out, &Scenario{N: 3, Kind: "balance", Mode: "shell", Src: "trap:noflag", Store: []Item{{"acc", "u1", "", "5"}, {"acc", "u2", "", "9"},
+			{"acc", "l1", "", "3"}, {"supply", "", "", "17"}, {"nmhash", "", "", "h"}, {"cnhash", "", "", "h"}},
+			Steps: []Step{up(v, "X"), up(v)}})
+	}
 	// alphabet leaves the non-notary mode (distributes its GAS)
 	out = append(out, &Scenario{N: 4, Kind: "alphabet", Mode: "shell", Src: "trap:alphabet-notary", Store: []Item{{"name", "", "", "az"}, {"index", "", "", "0"},
 		{"total", "", "", "7"}, {"nmhash", "", "", "hn"}, {"pxhash", "", "", "h"}, {"notary", "", "", "true"}, {"ballots", "", "", "fresh"}},
